@@ -63,6 +63,7 @@ VAMM_RULE = ("vAMM unit histories on the real contract (mock storage/querier): r
 
 PROPS = {
     "C01": {
+        "lean_modules": ["Perp.Props.C01", "Perp.Props.SatA.VammLift", "Perp.Props.SatA.C01W", "Perp.Props.SatA"],
         "runs": lambda tier, seed: [vamm_run(tier, seed)] + world_runs(tier, seed),
         "rule": VAMM_RULE,
         "assumptions": COMMON_ASSUMPTIONS + ["the vAMM is driven through its public execute/query entry points on cosmwasm-std mock dependencies"],
@@ -80,7 +81,7 @@ PROPS = {
         "assumptions": COMMON_ASSUMPTIONS,
     },
     "C18": {
-        "lean_modules": ["Perp.Props.C18", "Perp.Props.C18F"],
+        "lean_modules": ["Perp.Props.C18", "Perp.Props.C18F", "Perp.Props.SatA.VammLift", "Perp.Props.SatA.C18W", "Perp.Props.SatA"],
         "runs": lambda tier, seed: [vamm_run(tier, seed), feed_run(tier, seed)] + world_runs(tier, seed),
         "rule": VAMM_RULE + " || price feed unit histories on the real margined_pricefeed: append / append-multiple by owner and strangers with non-decreasing "
                 "timestamps (plus a malformed share: future / out-of-order), GetPrice / GetPreviousPrice{0..7} / GetTwapPrice over intervals 0..1e7, two keys",
@@ -101,17 +102,17 @@ PROPS = {
         "trusted_base": [],
     },
     "C03": {
-        "lean_modules": ["Perp.Props.Dispatch", "Perp.Props.EngineMoney", "Perp.Props.G9Restr", "Perp.Props.G9Perm", "Perp.Props.WorldMore"],
+        "lean_modules": ["Perp.Props.Dispatch", "Perp.Props.EngineMoney", "Perp.Props.G9Restr", "Perp.Props.G9Perm", "Perp.Props.WorldMore", "Perp.Props.SatA.C10", "Perp.Props.SatA.C03W", "Perp.Props.SatA"],
         "runs": lambda tier, seed: world_runs(tier, seed),
         "rule": WORLD_RULE, "assumptions": WORLD_ASSUMPTIONS,
     },
     "C08": {
-        "lean_modules": ["Perp.Props.Dispatch", "Perp.Props.WorldInv"],
+        "lean_modules": ["Perp.Props.Dispatch", "Perp.Props.WorldInv", "Perp.Props.SatA"],
         "runs": lambda tier, seed: world_runs(tier, seed) + fault_runs(tier, seed),
         "rule": WORLD_RULE, "assumptions": WORLD_ASSUMPTIONS,
     },
     "C09": {
-        "lean_modules": ["Perp.Props.VammGuards", "Perp.Props.C18F", "Perp.Props.EngineGuards"],
+        "lean_modules": ["Perp.Props.VammGuards", "Perp.Props.C18F", "Perp.Props.EngineGuards", "Perp.Props.SatF09", "Perp.Props.SatF"],
         "runs": lambda tier, seed: world_runs(tier, seed) + [vamm_run(tier, seed, 600, 10000), feed_run(tier, seed, 300, 5000)],
         "rule": WORLD_RULE, "assumptions": WORLD_ASSUMPTIONS,
     },
@@ -121,7 +122,7 @@ PROPS = {
         "rule": WORLD_RULE, "assumptions": WORLD_ASSUMPTIONS,
     },
     "C14": {
-        "lean_modules": ["Perp.Props.VammGuards", "Perp.Props.EngineGuards", "Perp.Props.WorldInv"],
+        "lean_modules": ["Perp.Props.VammGuards", "Perp.Props.EngineGuards", "Perp.Props.WorldInv", "Perp.Props.SatF09", "Perp.Props.SatF14", "Perp.Props.SatF"],
         "runs": lambda tier, seed: world_runs(tier, seed) + [vamm_run(tier, seed, 600, 10000)],
         "rule": WORLD_RULE, "assumptions": WORLD_ASSUMPTIONS,
     },
@@ -133,12 +134,12 @@ PROPS = {
     "C02": {
         "lean_modules": ["Perp.Props.EngineMoney", "Perp.Props.Dispatch", "Perp.Props.CurveNoFlip", "Perp.Props.WorldInv",
                          "Perp.Props.Mirror.Sum", "Perp.Props.Mirror.Walk", "Perp.Props.Mirror.Exec", "Perp.Props.Mirror.VammSide",
-                         "Perp.Props.Mirror.Flow", "Perp.Props.Mirror.Run", "Perp.Props.Mirror.Tx", "Perp.Props.MirrorInv"],
+                         "Perp.Props.Mirror.Flow", "Perp.Props.Mirror.Run", "Perp.Props.Mirror.Tx", "Perp.Props.MirrorInv", "Perp.Props.SatA.C02W", "Perp.Props.SatA"],
         "runs": lambda tier, seed: world_runs(tier, seed),
         "rule": WORLD_RULE, "assumptions": WORLD_ASSUMPTIONS,
     },
     "C04": {
-        "lean_modules": ["Perp.Props.EngineMoney"],
+        "lean_modules": ["Perp.Props.EngineMoney", "Perp.Props.TxLog", "Perp.Props.TxMoney", "Perp.Props.TxFlow", "Perp.Props.SatOpen", "Perp.Props.SatClose", "Perp.Props.SatFree", "Perp.Props.SatB"],
         "runs": lambda tier, seed: world_runs(tier, seed),
         "rule": WORLD_RULE, "assumptions": WORLD_ASSUMPTIONS,
     },
@@ -158,12 +159,12 @@ PROPS = {
         "rule": WORLD_RULE, "assumptions": WORLD_ASSUMPTIONS,
     },
     "C10": {
-        "lean_modules": ["Perp.Props.WorldInv", "Perp.Props.EngineMoney"],
+        "lean_modules": ["Perp.Props.WorldInv", "Perp.Props.EngineMoney", "Perp.Props.SatA.C10", "Perp.Props.SatA"],
         "runs": lambda tier, seed: world_runs(tier, seed),
         "rule": WORLD_RULE, "assumptions": WORLD_ASSUMPTIONS,
     },
     "C12": {
-        "lean_modules": ["Perp.Props.EngineGuards", "Perp.Props.EngineMoney"],
+        "lean_modules": ["Perp.Props.EngineGuards", "Perp.Props.EngineMoney", "Perp.Props.TxLog", "Perp.Props.TxMoney", "Perp.Props.TxFlow", "Perp.Props.SatOpen", "Perp.Props.SatClose", "Perp.Props.SatFree", "Perp.Props.SatB"],
         "runs": lambda tier, seed: world_runs(tier, seed),
         "rule": WORLD_RULE, "assumptions": WORLD_ASSUMPTIONS,
     },
